@@ -28,6 +28,10 @@ func vCachePool() []vOp {
 		{q: `{ me { ...F } } fragment F on Human { name }`},
 		{q: `{ me { ...F } } fragment F on Human { phone }`},
 		{q: `query($c: Int = 5) { me { phone(cc: $c) } }`},
+		// one operation in two layouts, failing at execution (a null for a non-null field on the way to
+		// another service's step): whatever the error says must come from this request
+		{q: `{ must { name phone } }`, fails: true},
+		{q: "{\n  must {\n    name\n    phone\n  }\n}", fails: true},
 		// one spread name and body, on different types
 		{q: `query($id: ID!) { node(id: $id) { ...F } } fragment F on Human { name }`, vars: func() map[string]interface{} {
 			return map[string]interface{}{"id": []string{"h1", "r1"}[verifChoice("var_id", 2)]}
@@ -77,6 +81,16 @@ func VerifCacheGateway() {
 		}
 		f.log = nil
 		code, out := f.vPost(op.q, vars, op.opName)
+		if op.fails {
+			// compared with what a gateway with the plain planner answers to the same request
+			plain := vNewFed(vReadmeWorld(1), nil, vSA, vSB, vSC)
+			_, pout := plain.vPost(op.q, vars, op.opName)
+			a, _ := json.Marshal(out)
+			b, _ := json.Marshal(pout)
+			verifAssert(out["errors"] != nil, "a null for a non-null field is reported")
+			verifAssert(string(a) == string(b), "a failing operation is answered as the plain planner's gateway answers it")
+			continue
+		}
 		exp, valid := f.vReference(op.q, vars, op.opName)
 		verifAssert(valid, "pool operation is valid against the gateway schema")
 		verifAssert(code == 200, "status 200")
